@@ -53,6 +53,23 @@ class AList(list):
         self.extra = extra
 
 
+CLASS_INFOS = {}       # abstract class name -> (repo, [ClassInfo]) : the real class(es) an abstract object stands for
+CURRENT_REPO = [None]  # the Repo under analysis (set by register_class); used to resolve module-level names when inlining
+INLINE_DEPTH = 8
+INLINED = set()        # constructs (file::qualname) of package functions interpreted through inlining since the last clear()
+_MISSING = object()
+_FUNC_INDEX = {}       # id(repo) -> {id(FunctionDef node): FuncInfo}
+_MODCONST = {}         # (id(repo), modname, name) -> value
+
+
+def func_of_node(repo, node):
+    idx = getattr(repo, "_func_index", None)
+    if idx is None:
+        idx = {id(f.node): f for f in repo.all_funcs()}
+        repo._func_index = idx
+    return idx.get(id(node))
+
+
 CTOR_ATTRS = {}        # abstract class name -> {attribute assigned in the real __init__: ("const", value) | ("unknown", None)}
 CLASS_METHODS = {}     # abstract class name -> names of methods / properties of the real class(es) it stands for
 
@@ -62,6 +79,8 @@ def register_class(name, repo, *classinfos):
     gap (Undecided), not an AttributeError of the analysed program"""
     names = CLASS_METHODS.setdefault(name, set())
     consts = CTOR_ATTRS.setdefault(name, {})
+    CLASS_INFOS[name] = (repo, list(classinfos))
+    CURRENT_REPO[0] = repo
     for ci in classinfos:
         for c in repo.mro(ci):
             names |= set(c.methods) | set(c.getters) | set(c.setters)
@@ -115,6 +134,9 @@ class Abs:
         self.self_obj = self_obj
         self.getters = getters or {}
         self.budget = budget
+        self.consts = {}      # dotted library name -> abstract value (e.g. np.random -> generator object)
+        self.module = None    # source Module of the code being interpreted (resolution of module-level names)
+        self.depth = 0        # inlining depth
         if self_obj is not None:
             self.env["self"] = self_obj
 
@@ -134,6 +156,9 @@ class Abs:
                 return ("callable", e.id)
             if e.id in ("True", "False", "None"):
                 return {"True": True, "False": False, "None": None}[e.id]
+            g = self._global(e.id)
+            if g is not _MISSING:
+                return g
             raise Undecided("unbound name %s" % e.id)
         if isinstance(e, (ast.List, ast.Tuple)):
             vals = []
@@ -150,8 +175,14 @@ class Abs:
             if dn in ("np.pi", "numpy.pi", "math.pi"):
                 from .algebra import sym as _sym
                 return _sym("pi")
+            if dn in self.consts:
+                return self.consts[dn]
+            if dn in ("np.inf", "numpy.inf", "math.inf", "np.Inf"):
+                return float("inf")
             if dn in self.summaries or dn in self.types:
                 return ("callable", dn)
+            if isinstance(e.value, ast.Name) and e.value.id not in self.env and self._is_library(e.value.id):
+                raise Undecided("no summary for %s" % dn)
             base = self.ev(e.value)
             if getattr(base, "_abs_native", False):
                 try:
@@ -385,6 +416,11 @@ class Abs:
             if base.attrs.get("__open__"):
                 return ("method", attr)      # any other attribute of an open object is an opaque bound method
             if (base is self.self_obj and attr in self.class_methods) or attr in CLASS_METHODS.get(base.cls, ()):
+                fi, kind = self._real_member(base.cls, attr)
+                if fi is not None and kind == "method":
+                    return ("imeth", fi, base)
+                if fi is not None and kind == "getter":
+                    return self._inline(fi, base, [], {})
                 raise Undecided("no summary for %s.%s" % (base.cls, attr))
             ca = CTOR_ATTRS.get(base.cls, {}).get(attr)
             if ca is not None:
@@ -400,7 +436,7 @@ class Abs:
             return ("bound", v[1], base) if isinstance(v, tuple) and v and v[0] == "method" else v
         if isinstance(base, list) and attr in ("append", "extend", "index", "copy", "tolist", "pop", "insert", "remove", "reverse", "count"):
             return ("listm", attr, base)
-        if isinstance(base, str) and attr in ("strip", "lower", "upper", "split"):
+        if isinstance(base, str) and attr in ("strip", "lower", "upper", "split", "format", "join", "startswith", "endswith", "replace"):
             return ("strm", attr, base)
         if isinstance(base, tuple) and attr in ("index", "count"):
             return ("listm", attr, list(base))
@@ -442,6 +478,12 @@ class Abs:
             raise Raised("TypeError(len)")
         if dn == "range":
             return list(range(*args))
+        if dn == "bool" and len(args) == 1:
+            return self.truth(args[0])
+        if dn == "itertools.product":
+            import itertools as _it
+            seqs = [self._iter(a) for a in args]
+            return [tuple(t) for t in _it.product(*seqs, repeat=kw.get("repeat", 1))]
         if dn == "enumerate":
             return [(i, x) for i, x in enumerate(self._iter(args[0]))]
         if dn == "zip":
@@ -474,6 +516,13 @@ class Abs:
             return False
         if dn == "getattr" and len(args) in (2, 3):
             o, a = args[0], args[1]
+            if getattr(o, "_abs_native", False) and isinstance(a, str):
+                if hasattr(o, a):
+                    v = getattr(o, a)
+                    return ("py", v) if callable(v) else v
+                if len(args) == 3:
+                    return args[2]
+                raise Raised("AttributeError(%s)" % a)
             if isinstance(o, Obj):
                 if o is self.self_obj and a in self.getters:
                     return self.getters[a](o)
@@ -566,10 +615,23 @@ class Abs:
                 return f[1](*args, **kw)
             if tag == "sampler":
                 return Tok("draw(%s)" % f[1])
+            if tag == "func":
+                return self._inline(f[1], None, args, kw)
+            if tag == "imeth":
+                return self._inline(f[1], f[2], args, kw)
+            if tag == "closure":
+                node, env_ref = f[1], f[2]
+                sub = self._sub(dict(env_ref), self.self_obj, self.module)
+                kind, out = sub._run_bound(node, args, kw, skip_self=False)
+                self.budget = sub.budget
+                if kind == "raise":
+                    raise Raised(out)
+                return out
             if tag == "lambda":
                 lam, env = f[1], f[2]
                 sub = Abs(env, self.types, self.summaries, self.self_obj, self.getters, self.budget, self.eq)
                 sub.class_methods = self.class_methods
+                sub.module, sub.depth, sub.consts = self.module, self.depth, self.consts
                 for p, a in zip(lam.args.args, args):
                     sub.env[p.arg] = a
                 return sub.ev(lam.body)
@@ -624,6 +686,10 @@ class Abs:
                     return sum(1 for x in l if self.compare(ast.Eq(), x, args[0]))
             if tag == "strm":
                 _, m, s = f
+                if m == "format":
+                    return "<formatted>"
+                if m == "join":
+                    return s.join(str(x) for x in self._iter(args[0]))
                 return getattr(s, m)(*args)
         raise Undecided("call of %r" % (f,))
 
@@ -709,7 +775,16 @@ class Abs:
                     self._bind(t, v)
             elif isinstance(st, ast.AugAssign):
                 cur = self.ev(st.target if not isinstance(st.target, ast.Name) else ast.Name(id=st.target.id, ctx=ast.Load()))
-                self._bind(st.target, self.binop(st.op, cur, self.ev(st.value)))
+                rhs = self.ev(st.value)
+                ip = {ast.Add: "__iadd__", ast.Sub: "__isub__", ast.Mult: "__imul__", ast.Div: "__itruediv__"}.get(type(st.op))
+                if getattr(cur, "_abs_native", False) and ip is not None and hasattr(cur, ip) and not isinstance(rhs, Tok):
+                    # numpy's augmented assignment updates the array in place: every alias sees the change
+                    try:
+                        self._bind(st.target, getattr(cur, ip)(rhs))
+                    except TypeError as ex:
+                        raise Raised("TypeError(%s)" % ex)
+                else:
+                    self._bind(st.target, self.binop(st.op, cur, rhs))
             elif isinstance(st, ast.If):
                 self.run(st.body if self.truth(self.ev(st.test)) else st.orelse)
             elif isinstance(st, ast.For):
@@ -729,7 +804,7 @@ class Abs:
                 n = 0
                 while self.truth(self.ev(st.test)):
                     n += 1
-                    if n > 200:
+                    if n > 5000:
                         raise Undecided("loop bound")
                     try:
                         self.run(st.body)
@@ -773,12 +848,151 @@ class Abs:
                         self.run(st.finalbody)
             elif isinstance(st, (ast.Import, ast.ImportFrom)):
                 continue
+            elif isinstance(st, ast.FunctionDef):
+                self.env[st.name] = ("closure", st, self.env)     # the closure sees the live local scope
             else:
                 raise Undecided("statement %s" % type(st).__name__)
+
+    # ------------------------------------------------------------ inlining of repo-local code
+    def _is_library(self, name):
+        """a module alias such as np / sympy / st / itertools (an imported name that is not a module of the package)"""
+        if name in ("np", "numpy", "sympy", "scipy", "st", "math", "itertools", "copy", "functools", "re", "warnings"):
+            return True
+        m = self.module
+        if m is not None and name in m.imports and not m.imports[name].startswith("pygom"):
+            return True
+        return False
+
+    def _sub(self, env, self_obj, module):
+        sub = Abs(env, self.types, self.summaries, self_obj, self.getters if self_obj is self.self_obj else {}, self.budget, self.eq)
+        sub.class_methods = self.class_methods if self_obj is self.self_obj else set()
+        sub.module = module
+        sub.depth = self.depth + 1
+        sub.consts = self.consts
+        return sub
+
+    def _real_member(self, clsname, attr):
+        info = CLASS_INFOS.get(clsname)
+        if info is None or len(info[1]) != 1:
+            return None, None
+        repo, (ci,) = info
+        fi = repo.resolve_method(ci, attr)
+        if fi is not None:
+            return fi, "method"
+        fi = repo.resolve_getter(ci, attr)
+        if fi is not None:
+            return fi, "getter"
+        return None, None
+
+    def _inline(self, fi, self_obj, args, kw):
+        """interpret a function / method of the package that the rule gave no summary for (extracted helpers)"""
+        if self.depth >= INLINE_DEPTH:
+            raise Undecided("inlining depth exceeded at %s" % fi.qualname)
+        INLINED.add(fi.construct)
+        static = any(dotted(d) in ("staticmethod",) for d in fi.node.decorator_list)
+        clsm = any(dotted(d) in ("classmethod",) for d in fi.node.decorator_list)
+        if clsm:
+            raise Undecided("classmethod %s is not modelled" % fi.qualname)
+        bound = self_obj if (fi.cls is not None and not static) else None
+        sub = self._sub({}, bound, fi.module)
+        kind, out = sub._run_bound(fi.node, args, kw, skip_self=bound is not None)
+        self.budget = sub.budget
+        if kind == "raise":
+            raise Raised(out)
+        return out
+
+    def _run_bound(self, fnode, args, kw, skip_self):
+        a = fnode.args
+        if a.vararg is not None or a.kwarg is not None:
+            raise Undecided("*args/**kwargs of %s are not modelled" % fnode.name)
+        params = [x.arg for x in a.posonlyargs + a.args]
+        if skip_self and params:
+            params = params[1:]
+        if len(args) > len(params):
+            raise Raised("TypeError(too many arguments for %s)" % fnode.name)
+        bound = dict(zip(params, args))
+        for k, v in kw.items():
+            if k not in params and k not in [x.arg for x in a.kwonlyargs]:
+                raise Raised("TypeError(unexpected keyword %s for %s)" % (k, fnode.name))
+            if k in bound:
+                raise Raised("TypeError(multiple values for %s)" % k)
+            bound[k] = v
+        for x, d in zip(a.kwonlyargs, a.kw_defaults):
+            if x.arg not in bound:
+                if d is None:
+                    raise Raised("TypeError(missing keyword-only %s)" % x.arg)
+                bound[x.arg] = self.ev(d)
+        allp = [x.arg for x in a.posonlyargs + a.args]
+        defaults = dict(zip(allp[len(allp) - len(a.defaults):], a.defaults))
+        for p_ in params:
+            if p_ not in bound:
+                if p_ in defaults:
+                    bound[p_] = self.ev(defaults[p_])
+                else:
+                    raise Raised("TypeError(missing argument %s of %s)" % (p_, fnode.name))
+        self.env.update(bound)
+        try:
+            self.run(fnode.body)
+        except _Ret as r:
+            return ("return", r.v)
+        except Raised as r:
+            return ("raise", r.exc)
+        return ("return", None)
+
+    def _global(self, name):
+        """module-level function, constant or package import visible from the code being interpreted"""
+        m = self.module
+        repo = CURRENT_REPO[0]
+        if m is None or repo is None:
+            return _MISSING
+        if name in m.functions:
+            return ("func", m.functions[name])
+        key = (m.modname, name)
+        _MODCONST = repo.__dict__.setdefault("_modconst", {})
+        if key in _MODCONST:
+            v = _MODCONST[key]
+            if v is _MISSING:
+                raise Undecided("recursive module constant %s" % name)
+            return v
+        for st in m.tree.body:
+            if isinstance(st, ast.Assign) and any(isinstance(t, ast.Name) and t.id == name for t in st.targets):
+                _MODCONST[key] = _MISSING
+                try:
+                    sub = self._sub({}, None, m)
+                    v = sub.ev(st.value)
+                finally:
+                    _MODCONST.pop(key, None)
+                _MODCONST[key] = v
+                return v
+        tgt = m.imports.get(name)
+        if tgt and tgt.startswith("pygom"):
+            for _ in range(3):
+                modname, _, fname = tgt.rpartition(".")
+                mm = repo.modules.get(modname)
+                if mm is None:
+                    break
+                if fname in mm.functions:
+                    return ("func", mm.functions[fname])
+                t2 = mm.imports.get(fname)
+                if not t2:
+                    # `from .distn import *`
+                    for st in mm.tree.body:
+                        if isinstance(st, ast.ImportFrom) and any(al.name == "*" for al in st.names):
+                            base = mm.modname + "." + (st.module or "") if st.level else (st.module or "")
+                            cand = repo.modules.get(base)
+                            if cand is not None and fname in cand.functions:
+                                return ("func", cand.functions[fname])
+                    break
+                tgt = t2
+        return _MISSING
 
     def run_function(self, fnode, args):
         """bind args {name: value} (missing -> defaults evaluated) and run; returns
         ('return', value) | ('raise', name)"""
+        if self.module is None and CURRENT_REPO[0] is not None:
+            fi_ = func_of_node(CURRENT_REPO[0], fnode)
+            if fi_ is not None:
+                self.module = fi_.module
         a = fnode.args
         params = [x.arg for x in a.posonlyargs + a.args]
         defaults = dict(zip(params[len(params) - len(a.defaults):], a.defaults))
